@@ -305,13 +305,19 @@ def ra1 (c impl : List String) : Option Verdict := do
 def ra3 (c impl : List String) : Option Verdict := do
   let (raw, sys, fw) ← P.run pRACase c
   let i ← P.run pImplRA impl
-  let (ok, note) := Spec.C03.holds i.status i.ra i.wire i.decoded
+  -- ClockSane (DESIGN §5 C03): the clock never reads earlier than the daemon's own epoch (both come
+  -- from the process's monotonic clock); states violating it are outside the property's quantifier
+  let clockSane := decide (sys.epoch ≤ sys.now)
+  let (ok, note) := if clockSane then Spec.C03.holds i.status i.ra i.wire i.decoded
+    else (i.status != "panic" && i.status != "unstable" && i.status != "config-mutated", "")
   let nt := match i.ra with
     | some ra => ra.options.any fun o => match o with
         | .pi .. | .ri .. | .rdnss .. | .dnssl .. | .pref64 .. => true
         | _ => false
     | none => false
-  pure { model := modelRAString raw sys fw true, oracle := ok, nontrivial := nt, note := note }
+  let wireKnown := i.wire == "wire" || i.wire == "marshal-err" || i.wire == "" 
+  pure { model := modelRAString raw sys fw true, oracle := ok, nontrivial := nt && clockSane, note := note,
+         agreeOverride := if clockSane then none else some (i.status != "ok" || wireKnown) }
 
 /-- `ra4 … | …` (C04, single-generation form) -/
 def ra4 (c impl : List String) : Option Verdict := do
